@@ -244,6 +244,34 @@ Theorem C16_average_binary64_code : forall (p : R) W (ops : list (oop R)), (0 < 
 Proof. exact average_b64_code. Qed.
 Print Assumptions C16_average_binary64_code.
 
+(* the variance in binary64 (seven roundings): once the window (2 <= W <= 64) is full the reported variance is within
+   2^-53 (7 A + 9 B)/(W-1) + 3*2^-1075 of the exact unbiased sample variance zvar of the last W truncated samples, with
+   A = sum y_i^2 (zsqsum) and B = W mean^2 — for every history, independent of its length.  (A and B, not the variance
+   itself, scale the error: the textbook cancellation of the sum-of-squares formula; the oracle allows the same shape.) *)
+Theorem C16_average_binary64_variance_error : forall W h (m : Z), (2 <= W)%nat -> (W <= 64)%nat -> (0 < m <= 1000000)%Z ->
+  Forall (fun x => (Z.abs x <= 100000000)%Z) (since_reset h []) ->
+  (W <= length (since_reset h []))%nat ->
+  let s := fold_left i_step h (o_init W) in
+  let L := lastn W (since_reset h []) in
+  exists v, o_variance B64Ops m s = Some v /\
+    (Rabs (v - zvar m L) <= u64 * (7 * zsqsum m L + 9 * (INR W * zmean m L * zmean m L)) / (INR W - 1) + 3 * eta64)%R.
+Proof. exact variance_b64_history. Qed.
+Print Assumptions C16_average_binary64_variance_error.
+
+(* and about the OnlineVariance code as written, hypotheses on the inputs only *)
+Theorem C16_average_binary64_variance_code : forall (p : R) W (ops : list (oop R)), (2 <= W)%nat -> (W <= 64)%nat ->
+  (2 / 2000001 <= p <= 1)%R ->
+  let mult := o_multiplier B64Ops p in
+  values_bounded mult ops ->
+  let c := fold_left (src_var_step B64Ops) ops (src_var_ctor2 B64Ops p (Z.of_nat W)) in
+  let xs := since_reset (map (trunc_op B64Ops mult) ops) [] in
+  let L := lastn W xs in
+  (W <= length xs)%nat ->
+  exists v, src_var_getVariance c = Some v /\
+    (Rabs (v - zvar mult L) <= u64 * (7 * zsqsum mult L + 9 * (INR W * zmean mult L * zmean mult L)) / (INR W - 1) + 3 * eta64)%R.
+Proof. exact variance_b64_code. Qed.
+Print Assumptions C16_average_binary64_variance_code.
+
 (* ---- the defects that were repaired (models of the code before the fix:, kept as documentation) ---- *)
 (* reset() kept index_: W = 3, history 100, reset, 1, 2, 3, 10 -> window {1,3,10}, not {2,3,10} *)
 Theorem C16_reset_keeps_index_refuted :
